@@ -427,6 +427,21 @@ func nonNilAt(v ssa.Value, at ssa.Instruction, depth int, onStack map[ssa.Value]
 	if _, ok := v.(*ssa.MakeInterface); ok {
 		return true // a concrete value boxed into error is non-nil as an interface
 	}
+	if call, ok := v.(*ssa.Call); ok {
+		// a helper that builds an error: every return of the static callee is a provably non-nil error
+		if cal := call.Common().StaticCallee(); cal != nil && cal.Blocks != nil && depth < 4 && ReturnsError(cal.Signature) && cal.Signature.Results().Len() == 1 {
+			all := true
+			rets := Returns(cal)
+			for _, ret := range rets {
+				if !nonNilAt(ret.Results[0], ret, depth+1, onStack) {
+					all = false
+				}
+			}
+			if all && len(rets) > 0 {
+				return true
+			}
+		}
+	}
 	if phi, ok := v.(*ssa.Phi); ok {
 		if onStack[phi] {
 			return true // loop-carried: non-nil if every entry edge is (coinduction)
